@@ -20,7 +20,7 @@ theorem burst_single (s : Sys) (op : Op) : s.burst [op] = ((s.run [op]).1, (s.ru
     | none => rfl
     | some x =>
       obtain ⟨k2, lib2, levs⟩ := x
-      simp only
+      simp only [List.length_singleton, departed_one]
       cases forgetAll fs1 k2 lib2 (if lib2.recursive = true then movedOut (gsOf levs) else []) <;> rfl
 
 theorem allFile_no_root (ops : List Op) : ∀ s : Sys, allFile s ops = true → Op.rmdir ["W"] ∉ ops := by
